@@ -109,6 +109,7 @@ type Exec struct {
 	race      *raceState
 	endMsg    string
 	killing   bool
+	eqConst   map[string]*Term
 	h1, h2    uint64
 	model     map[string]interface{} // satisfies pc when modelOK
 	modelOK   bool
@@ -154,8 +155,40 @@ func (ex *Exec) addPC(t *Term) {
 	if t.Op == "and" {
 		for _, a := range t.Args {
 			ex.pcSet[a.String()] = true
+			ex.noteEq(a)
 		}
 	}
+	ex.noteEq(t)
+}
+
+// noteEq records (= term const) facts of the path condition so that later uses of the
+// term compute with the constant.
+func (ex *Exec) noteEq(t *Term) {
+	if t.Op != "=" || len(t.Args) != 2 {
+		return
+	}
+	a, b := t.Args[0], t.Args[1]
+	if a.IsConst() && !b.IsConst() {
+		a, b = b, a
+	}
+	if b.IsConst() && !a.IsConst() {
+		if ex.eqConst == nil {
+			ex.eqConst = map[string]*Term{}
+		}
+		ex.eqConst[a.String()] = b
+	}
+}
+
+// resolve replaces a symbolic scalar by its constant if the path condition fixes it.
+func (ex *Exec) resolve(v Value) Value {
+	t, ok := v.(*Term)
+	if !ok || ex.eqConst == nil {
+		return v
+	}
+	if c, ok := ex.eqConst[t.String()]; ok {
+		return c
+	}
+	return v
 }
 
 func (ex *Exec) check(extra *Term) SatResult {
